@@ -218,6 +218,16 @@ def run(rep, tier):
         if claimed != feats:
             rep.violation({"leg": "supports", "backend": b}, {"supports_query_says": claimed, "behaviour_says": feats})
     rep.extra["behavioural_features"] = beh
+    # ... and every feature flag against its second reading (attribute-path check on the struct fields)
+    app = profiles.attr_path_probe()
+    for b, a in app.items():
+        for f in profiles.FEATURES:
+            if f in a["undecided"]:
+                continue
+            if (f in pr[b]["supports"]) != (f in a["supports"]):
+                rep.violation({"leg": "supports", "backend": b, "feature": f},
+                              {"supports_query_says": f in pr[b]["supports"], "attribute_path_says": f in a["supports"]})
+    rep.extra["attr_path_undecided"] = {b: a["undecided"] for b, a in app.items() if a["undecided"]}
     cases = truth_table(rep, tier, gen)
     placement(rep, tier, cases)
     exports(rep)
